@@ -29,7 +29,7 @@ VL == INSTANCE VersionLock WITH
 
 Tr == ndJsonDeserialize("c19_obs.ndjson")
 
-VARIABLES l, bad, nchk
+VARIABLES l, nbad, nchk
 
 ForkSet(line) == {[h |-> line.forks[i].h, m |-> line.forks[i].m] : i \in 1..Len(line.forks)}
 
@@ -81,22 +81,24 @@ SumChecks(a, b) == IF a > b THEN 0 ELSE Checks(Tr[a]) + SumChecks(a + 1, b)
 
 Min2(a, b) == IF a < b THEN a ELSE b
 
-Init == l = 1 /\ bad = {} /\ nchk = 0
+Init == l = 1 /\ nbad = 0 /\ nchk = 0
 
+\* one step validates a block of lines; the failed checks of the block are printed as JSON
+\* (kept out of the state, so that an error trace stays small)
 Next ==
     /\ l <= Len(Tr)
-    /\ LET hi == Min2(l + Block - 1, Len(Tr)) IN
+    /\ LET hi == Min2(l + Block - 1, Len(Tr))
+           f  == UNION {LineFails(Tr[k]) : k \in l..hi}
+       IN
+        /\ (f = {} \/ PrintT(<<"C19BAD", ToJson(f)>>))
         /\ l' = hi + 1
-        /\ bad' = bad \cup UNION {LineFails(Tr[k]) : k \in l..hi}
+        /\ nbad' = nbad + Cardinality(f)
         /\ nchk' = nchk + SumChecks(l, hi)
 
 Done == l > Len(Tr)
 
-\* acceptance: at the end of the file no check has failed; the failed checks and a
-\* summary are printed as JSON for the driver
+\* acceptance: at the end of the file no check has failed (a summary is printed for the driver)
 Accepted ==
-    Done => /\ PrintT(<<"C19SUMMARY", ToJson([lines |-> Len(Tr), checks |-> nchk,
-                                               failed |-> Cardinality(bad)])>>)
-            /\ \/ bad = {}
-               \/ PrintT(<<"C19BAD", ToJson(bad)>>) /\ FALSE
+    Done => /\ PrintT(<<"C19SUMMARY", ToJson([lines |-> Len(Tr), checks |-> nchk, failed |-> nbad])>>)
+            /\ nbad = 0
 =============================================================================
